@@ -40,10 +40,18 @@ type call struct {
 }
 
 type c18Case struct {
-	SP       int    `json:"sp"`
+	SP       int    `json:"sp"` // -1: tight - the stack top sits two bytes above the end of the program (room for the return address only)
 	Calls    []call `json:"calls"`
 	LoadFile bool   `json:"load_file"`
+	// Reconf: the console writer is configured twice; 1: first a bytes.Buffer, then a Write-only writer;
+	// 2: first a Write-only writer, then a bytes.Buffer. Only the last one may receive output.
+	Reconf int `json:"reconf,omitempty"`
 }
+
+// plainWriter has nothing but Write.
+type plainWriter struct{ b []byte }
+
+func (p *plainWriter) Write(x []byte) (int, error) { p.b = append(p.b, x...); return len(x), nil }
 
 const progAt = 0x0100
 
@@ -103,6 +111,14 @@ func run(c *c18Case) (o outcome) {
 		}
 	}()
 	a := assemble(c)
+	if c.SP < 0 {
+		// tight stack: re-assemble with SP = end of program + 2
+		c2 := *c
+		c2.SP = progAt + len(a.code) + 2
+		a = assemble(&c2)
+		defer func(sp int) { c.SP = sp }(c.SP)
+		c.SP = c2.SP
+	}
 	mem, io := tinycpm.New()
 	if c.LoadFile {
 		dir, err := os.MkdirTemp(os.Getenv("VERIF_WORK"), "cpm")
@@ -127,8 +143,20 @@ func run(c *c18Case) (o outcome) {
 			mem.Set(uint16(at+i), b)
 		}
 	}
-	var console, warn bytes.Buffer
-	io.SetStdout(&console)
+	var console, warn, first bytes.Buffer
+	plainFirst, plainLast := &plainWriter{}, &plainWriter{}
+	consoleBytes := func() []byte { return console.Bytes() }
+	switch c.Reconf {
+	case 1:
+		io.SetStdout(&first)
+		io.SetStdout(plainLast)
+		consoleBytes = func() []byte { return plainLast.b }
+	case 2:
+		io.SetStdout(plainFirst)
+		io.SetStdout(&console)
+	default:
+		io.SetStdout(&console)
+	}
 	io.SetWarnLogger(log.New(&warn, "[WARN]", 0))
 	cpu := z80.CPU{States: z80.States{SPR: z80.SPR{PC: progAt}}, Memory: mem, IO: io, BreakPoints: map[uint16]struct{}{}}
 	for _, r := range a.retAddr {
@@ -162,7 +190,7 @@ func run(c *c18Case) (o outcome) {
 		err := cpu.Run(ctx)
 		if badSeen {
 			// unsupported function: the property is silent; only "no panic, output so far is as expected"
-			if !bytes.HasPrefix(want, console.Bytes()) && !bytes.Equal(want, console.Bytes()) {
+			if !bytes.HasPrefix(want, consoleBytes()) && !bytes.Equal(want, consoleBytes()) {
 				return outcome{msg: "console output before an unsupported function call is not what was asked for"}
 			}
 			return outcome{bad: true, nt: true}
@@ -176,8 +204,8 @@ func run(c *c18Case) (o outcome) {
 		if int(cpu.SP) != c.SP {
 			return outcome{msg: fmt.Sprintf("call %d (%s): SP=%04x after return, want %04x", callIdx, cl.Kind, cpu.SP, c.SP)}
 		}
-		if !bytes.Equal(console.Bytes(), want) {
-			return outcome{msg: fmt.Sprintf("call %d (%s): console holds %d bytes %q, want %d bytes %q", callIdx, cl.Kind, console.Len(), clip(console.Bytes()), len(want), clip(want))}
+		if !bytes.Equal(consoleBytes(), want) {
+			return outcome{msg: fmt.Sprintf("call %d (%s): console holds %d bytes %q, want %d bytes %q", callIdx, cl.Kind, len(consoleBytes()), clip(consoleBytes()), len(want), clip(want))}
 		}
 		callIdx++
 	}
@@ -187,13 +215,23 @@ func run(c *c18Case) (o outcome) {
 	if cpu.PC != 0xFF03 || !cpu.HALT {
 		return outcome{msg: fmt.Sprintf("run ended at PC=%04x HALT=%v, want halted at FF03", cpu.PC, cpu.HALT)}
 	}
-	if !bytes.Equal(console.Bytes(), want) {
-		return outcome{msg: fmt.Sprintf("console holds %q, want %q", clip(console.Bytes()), clip(want))}
+	if !bytes.Equal(consoleBytes(), want) {
+		return outcome{msg: fmt.Sprintf("console holds %q, want %q", clip(consoleBytes()), clip(want))}
 	}
 	for i, b := range a.code {
 		if mem.Get(uint16(progAt+i)) != b {
 			return outcome{msg: fmt.Sprintf("program byte at %04x was modified", progAt+i)}
 		}
+	}
+	for at, s := range a.strs {
+		for i, b := range s {
+			if mem.Get(uint16(at+i)) != b {
+				return outcome{msg: fmt.Sprintf("string byte at %04x was modified", at+i)}
+			}
+		}
+	}
+	if first.Len() != 0 || len(plainFirst.b) != 0 {
+		return outcome{msg: "console output went to a writer that had been replaced by SetStdout"}
 	}
 	if n := strings.Count(warn.String(), "\n"); n != warnings {
 		return outcome{msg: fmt.Sprintf("%d warning lines for %d stray port accesses: %q", n, warnings, clip(warn.Bytes()))}
@@ -258,6 +296,12 @@ func TestC18(t *testing.T) {
 		// incl. the CP/M convention LD SP,(6) = 0xFE06: the stack sits directly below the BDOS entry
 		c.SP = rapid.SampledFrom([]int{0xF000, 0x8000, 0xFE00, 0xC000, 0x0000, 0xFE06, 0xFE06, 0xFE04, 0xFE02, 0xFF00, 0x0100, 0xFFFE}).Draw(t, "sp")
 		c.LoadFile = rapid.IntRange(0, 3).Draw(t, "loadfile") == 0
+		if rapid.IntRange(0, 4).Draw(t, "tight") == 0 {
+			c.SP = -1
+		}
+		if rapid.IntRange(0, 3).Draw(t, "reconf") == 0 {
+			c.Reconf = rapid.IntRange(1, 2).Draw(t, "reconfKind")
+		}
 		n := rapid.IntRange(1, 8).Draw(t, "ncalls")
 		// string area: 0x1000..0xBFFF, bump allocated with drawn gaps (never overlaps program, page 0, BIOS; stack sits at SP-2..SP-1)
 		next := 0x1000
@@ -337,6 +381,12 @@ func TestC18(t *testing.T) {
 		}
 		if c.LoadFile {
 			col.Label("loaded-with-LoadFile")
+		}
+		if c.SP < 0 {
+			col.Label("tight-stack-above-code")
+		}
+		if c.Reconf > 0 {
+			col.Label("console-reconfigured")
 		}
 		if (n2 >= 1 && n9 >= 1 && n2+n9 >= 2) || special {
 			col.Distinct(h)
